@@ -45,7 +45,7 @@ from pathlib import Path
 sys.path.insert(0, str(Path(__file__).resolve().parent))
 from gen6 import run_solver, Z3, log, ENV, VERIF, REPO, OUT, SCRATCH_ROOT, CACHE  # noqa
 
-TIERS = {"quick": 6, "thorough": 8}
+TIERS = {"quick": 7, "thorough": 8}
 VMAX = 43          # 1/2 + 1/3 + 1/7 + 1/42 = 1: beyond the classical extremal triples
 CVC5 = ["cvc5", "--lang", "smt2", "--produce-models"]
 CAP = {"quick": 120, "thorough": 900}
